@@ -62,6 +62,7 @@ pub fn props_of(case: &Value) -> Vec<&'static str> {
     if st != "ok" && st != "fail" { return vec![]; }
     match case["slice"].as_str().unwrap_or("") {
         "fn" => vec!["C13", "C17"],
+        "arith" => vec!["C12"],
         "sess" => vec!["C06", "C08", "C09"],
         _ => vec!["C06", "C07", "C08", "C09", "C10"],
     }
@@ -87,20 +88,24 @@ pub fn replay(case: &Value) -> Vec<Obs> {
     let out = run_session(&pairs, build_ss(&prior_t), &vars);
 
     let has_anon = pairs_t.iter().any(|(l, r)| contains_anon(l) || contains_anon(r)) || prior_t.iter().any(contains_anon);
-    let model_agrees = out.status == exp_status && out.done == exp_done && out.res == exp_res;
+    let same_res = if slice == "arith" || slice == "fn" {
+        out.res.iter().map(unsign_zero).collect::<Vec<_>>() == exp_res.iter().map(unsign_zero).collect::<Vec<_>>()
+    } else { out.res == exp_res };
+    let model_agrees = out.status == exp_status && out.done == exp_done && same_res;
     let detail = || format!("{} :: model {} done={} [{}] / impl {} done={} [{}] {}",
                             what, exp_status, exp_done, show_vec(&exp_res), out.status, out.done, show_vec(&out.res), out.note);
 
-    let owner: &'static str = if slice == "fn" { "C13" } else { "C06" };
+    let owner: &'static str = if slice == "fn" { "C13" } else if slice == "arith" { "C12" } else { "C06" };
     if model_agrees { obs.push(Obs::ok(owner, "result")); } else { obs.push(Obs::bad(owner, "result", detail())); }
     if slice == "fn" && pairs_t.iter().any(|(l, r)| mentions_fn(l, "join") || mentions_fn(r, "join")) {
         if model_agrees { obs.push(Obs::ok("C17", "join")); } else { obs.push(Obs::bad("C17", "join", detail())); }
     }
-    if has_anon && slice != "fn" {
+    let is_fn = slice == "fn" || slice == "arith";
+    if has_anon && !is_fn {
         if model_agrees && !out.anon_bound { obs.push(Obs::ok("C09", "anon")); }
         else { obs.push(Obs::bad("C09", if out.anon_bound { "anon-bound" } else { "result" }, detail())); }
     }
-    if slice != "fn" {
+    if !is_fn {
         if out.cycle || out.res.iter().any(|t| contains_bad(t, "cycle")) { obs.push(Obs::bad("C08", "cycle", detail())); }
         else { obs.push(Obs::ok("C08", "acyclic")); }
     }
